@@ -98,6 +98,8 @@ def gen_procprog(rng: random.Random) -> dict:
     def gen_val():
         if fut_counter[0] > 0 and rng.random() < 0.08:
             return {"fut": rng.randrange(fut_counter[0])}   # a future object handed over as a plain value
+        if rng.random() < 0.06:
+            return {"exc": rng.randrange(1000)}             # an exception instance handed over as a plain value
         return rng.randrange(1000)
 
     def gen_steps(depth: int, budget: int, slot_counter: list) -> list:
@@ -109,6 +111,10 @@ def gen_procprog(rng: random.Random) -> dict:
                 emits = [gen_emit() for _ in range(rng.choice([0, 0, 1, 2]))]
                 if rng.random() < 0.15:
                     emits.insert(rng.randint(0, len(emits)), gen_prepared())
+                if rng.random() < 0.12:
+                    # self.forward(<the event that started this process>, recorder): a new event sharing its context
+                    note_counter[0] += 1
+                    emits.insert(rng.randint(0, len(emits)), {"kind": "forward", "id": note_counter[0] - 1, "dt": 0})
                 steps.append({"op": "delay", "d": rng.choice(DELAYS_S),
                               "emits": emits,
                               "form": rng.choice(["bare", "tuple", "single", "shared_empty"])})
@@ -208,7 +214,9 @@ def validate(sc: dict) -> None:
         for c in kids:
             walk_tree(c, in_tree, False)
 
-    def walk_emit(e):
+    def walk_emit(e, in_process=False):
+        if e["kind"] == "forward" and (not in_process or e.get("dt", 0) != 0):
+            raise InvalidScenario("forward() is only used by a process, for an event at the current instant")
         if e["kind"] == "resolve" and not (0 <= e["f"] < n):
             raise InvalidScenario("emit future out of range")
         if e["kind"] == "prepared":
@@ -221,7 +229,7 @@ def validate(sc: dict) -> None:
             op = s["op"]
             if op == "delay":
                 for e in s.get("emits", []):
-                    walk_emit(e)
+                    walk_emit(e, in_process=True)
             elif op == "wait":
                 walk_tree(s["tree"], again=bool(s.get("again")))
             elif op == "make":
@@ -244,7 +252,9 @@ def validate(sc: dict) -> None:
     for p in sc["procs"]:
         proc_direct.clear()
         walk_steps(p["steps"], {})
-        for e in p.get("ret_emits", []) + p.get("hook_emits", []):
+        for e in p.get("ret_emits", []):
+            walk_emit(e, in_process=True)
+        for e in p.get("hook_emits", []):
             walk_emit(e)
     for e in sc["initial"]:
         walk_emit(e)
@@ -259,6 +269,8 @@ _FUT_INDEX: dict[int, int] = {}
 def _norm(v):
     if isinstance(v, SimFuture):
         return ["FUT", _FUT_INDEX.get(id(v), -1)]   # a future passed as a plain value (a handle)
+    if isinstance(v, BaseException):
+        return ["EXC", v.args[0] if v.args else None]    # an exception instance delivered as a plain value
     if isinstance(v, tuple):
         return [_norm(x) for x in v]
     if isinstance(v, list):
@@ -302,6 +314,7 @@ class _Plain(Entity):
         return self._NOTHING if self.w.sc["plain"][event.context["metadata"]["idx"]].get("ret_shared") else None
 
 
+import collections
 import collections.abc as _abc
 
 
@@ -321,6 +334,23 @@ class GenWrapper(_abc.Generator):
         return self._gen.close()
 
 
+class ValueAsException(TimeoutError):
+    """An exception INSTANCE used as an ordinary resolved value; the harness never raises it."""
+
+
+class _FwdRecorder(Entity):
+    """Receives events made with Entity.forward(): they carry the start event's context (and nothing of their own)."""
+
+    def __init__(self, world):
+        super().__init__("fwd")
+        self.w = world
+
+    def handle_event(self, event):
+        pid = event.context["metadata"]["proc"]
+        self.w.notes.append((self.w.fwd_ids[pid].popleft(), self.now.nanoseconds))
+        return None
+
+
 class _Proc(Entity):
     def __init__(self, world, idx):
         super().__init__(f"P{idx}")
@@ -337,12 +367,13 @@ class _Proc(Entity):
         w = self.w
         log = w.plog[self.idx]
         log.append(("start", self.now.nanoseconds, None))
+        self._start_event = event
         if p.get("hook") and p.get("hook_when") == "body":
             # registered from inside the running process, on an event that had no hooks at dispatch
             event.add_completion_hook(w._hook(("proc", self.idx), p.get("hook_emits", [])))
         slots = {}
         yield from self._steps(p["steps"], log, slots)
-        created = w.make_events(self.now.nanoseconds, p.get("ret_emits", []))
+        created = w.make_events(self.now.nanoseconds, p.get("ret_emits", []), proc=self)
         log.append(("finish", self.now.nanoseconds, None))
         if p["ret"] == "shared_empty" or (p["ret"] == "list" and not created and p.get("ret_shared")):
             return w.NO_EVENTS   # one list object returned by every process that has nothing to return
@@ -357,7 +388,7 @@ class _Proc(Entity):
         for s in steps:
             op = s["op"]
             if op == "delay":
-                evs = w.make_events(self.now.nanoseconds, s.get("emits", []))
+                evs = w.make_events(self.now.nanoseconds, s.get("emits", []), proc=self)
                 form = s.get("form", "bare")
                 if not evs and form == "shared_empty":
                     got = yield s["d"], self._NO_EVENTS  # one list object reused by every such yield
@@ -404,12 +435,16 @@ class EngineWorld:
         self.recorder = _Recorder(self)
         self.plain = _Plain(self)
         self.procs = [_Proc(self, i) for i in range(len(sc["procs"]))]
+        self.fwd_rec = _FwdRecorder(self)
+        self.fwd_ids = [collections.deque() for _ in sc["procs"]]
 
     def entities(self):
-        return [self.resolver, self.recorder, self.plain] + self.procs
+        return [self.resolver, self.recorder, self.plain, self.fwd_rec] + self.procs
 
     def value(self, val):
         """Scenario values are ints, or {"fut": j}: the j-th future object itself, handed over as a value."""
+        if isinstance(val, dict) and "exc" in val:
+            return ValueAsException(val["exc"])      # failures as plain values: future.resolve(Error("timeout"))
         if isinstance(val, dict):
             return self.futs[val["fut"] % len(self.futs)]
         return val
@@ -426,8 +461,16 @@ class EngineWorld:
             ev.context["metadata"]["id"] = e["id"]
         return ev
 
-    def make_events(self, now_ns: int, emits) -> list[Event]:
-        return [self.make_event(now_ns + e.get("dt", 0), e) for e in emits]
+    def make_events(self, now_ns: int, emits, proc=None) -> list[Event]:
+        out = []
+        for e in emits:
+            if e["kind"] == "forward":
+                # Entity.forward(): a new event at the current instant that shares the original event's context
+                self.fwd_ids[proc.idx].append(e["id"])
+                out.append(proc.forward(proc._start_event, self.fwd_rec, event_type="fwd"))
+            else:
+                out.append(self.make_event(now_ns + e.get("dt", 0), e))
+        return out
 
     def build_tree(self, t):
         if "f" in t:
@@ -445,6 +488,7 @@ class EngineWorld:
                                 daemon=p.get("daemon", False))
             else:
                 ev = Event(time=Instant(p["t"]), event_type="start", target=self.procs[i], daemon=p.get("daemon", False))
+            ev.context["metadata"]["proc"] = i
             if p.get("hook") and p.get("hook_when", "create") == "create":
                 ev.add_completion_hook(self._hook(("proc", i), p.get("hook_emits", [])))
             out.append(ev)
@@ -535,7 +579,9 @@ class RefWorld:
         return ([k[0] for k in kids], max([k[1] for k in kids] + [built_order]), any(k[2] for k in kids))
 
     def resolve_leaf(self, f, val):
-        if isinstance(val, dict):
+        if isinstance(val, dict) and "exc" in val:
+            val = ["EXC", val["exc"]]
+        elif isinstance(val, dict):
             val = ["FUT", val["fut"] % max(1, self.sc["futures"])]
         if self.leaf[f] is not None:
             self.probes["resolve_twice"] += 1
